@@ -2,6 +2,7 @@ import TextxVerif.Proofs.PegGapSim
 import TextxVerif.Proofs.PegActiveSet
 import TextxVerif.Proofs.PegWsParam
 import TextxVerif.Proofs.TxGapBuild
+import TextxVerif.Proofs.PegSetup
 /-!
 # C22 — whitespace and comments between tokens do not change the model
 
@@ -35,6 +36,14 @@ Proved here
   values, creation order and parents, or the same error; nested objects, match rules, abstract rules and
   `use_regexp_group` included.  (The mirror's model carries no source positions.)
 * `C22_ws_param_tx`: the compiler mirror `Tx.compile` uses the same `ws` decoding (`Tx.wsParam`).
+
+* `C22_comment_own_first`, `C22_comment_import_order`, `C22_comment_none`: which Comment rule is "the grammar's
+  Comment rule" when the grammar is spread over imported files (model `Peg/Setup.lean` of the lookup in
+  `visit_textx_model` / `TextXMetaModel.__getitem__`): the main file's own, else that of the first imported file
+  (order of the import statements) that defines one, else none;
+* `C22_parser_cfg_history`, `C22_default_cfg_no_memo`: the whitespace configuration of a meta-model's parser
+  (skipws, ws, memoization) is that of the meta-model itself, whatever meta-models were created before it in the
+  same process (the cache of grammar-language parsers `textX_parsers` is the state threaded through).
 
 Not proved: `C22_partial_comment` (inserting text matched by the Comment rule) — checked by the harness only.
 The full statement is false on the mirror and on the code because `comment_positions` is keyed by position
@@ -437,5 +446,57 @@ example : Tx.slice (extendGap m1Input 2 [' ']) (sh 2 1 3) 2 = "xy" ∧ Tx.slice 
 example : w1.memo = false ∧ (3 + 2 ≤ 2 ∨ 2 ≤ 3) := by decide
 /-- a terminal across the insertion point is excluded by `clearB` -/
 example : clearB 5 2 0 1 2 = false ∧ clearB 5 2 0 3 2 = true ∧ clearB 5 2 0 0 1 = true := by decide
+
+/-! ## (8) set-up: the Comment rule in force, the parser configuration after a history of meta-models -/
+
+/-- **The main grammar's own Comment rule is the one in force**, whatever the imported files define. -/
+theorem C22_comment_own_first (files : List GFile) (main : GFile) (h : "Comment" ∈ main.defines) :
+    commentOwner files main = some main.name := by
+  simp [commentOwner, lookupRule, h]
+
+/-- **Otherwise the first imported file that defines one, in the order of the import statements**: if the import
+list is `pre ++ f :: post`, no file of `pre` defines `Comment` and `f` does, the comments model is `f`'s. -/
+theorem C22_comment_import_order (files : List GFile) (main f : GFile) (pre post : List String)
+    (h0 : "Comment" ∉ main.defines) (himp : main.imports = pre ++ f.name :: post)
+    (hf : files.find? (fun g => g.name == f.name) = some f) (hdef : "Comment" ∈ f.defines)
+    (hpre : ∀ n ∈ pre, ∀ g, files.find? (fun g => g.name == n) = some g → "Comment" ∉ g.defines) :
+    commentOwner files main = some f.name := by
+  have hb : "Comment" ∉ baseRules := by decide
+  simp only [commentOwner, lookupRule, List.contains_eq_mem, h0, hb, himp, decide_false, Bool.false_eq_true,
+    if_false]
+  rw [firstDefining_pre files "Comment" pre _ hpre]
+  simp [firstDefining, hf, hdef]
+
+/-- **No comments model** when neither the main file nor a directly imported file defines `Comment` (a file
+imported by an imported file only is not searched). -/
+theorem C22_comment_none (files : List GFile) (main : GFile) (h0 : "Comment" ∉ main.defines)
+    (h : ∀ n ∈ main.imports, ∀ g, files.find? (fun g => g.name == n) = some g → "Comment" ∉ g.defines) :
+    commentOwner files main = none := by
+  have hb : "Comment" ∉ baseRules := by decide
+  simp only [commentOwner, lookupRule, List.contains_eq_mem, h0, hb, decide_false, Bool.false_eq_true, if_false]
+  have := firstDefining_pre files "Comment" main.imports [] h
+  simpa [firstDefining] using this
+
+/-- **History independence of the parser configuration.**  For every history of meta-models created earlier in
+the process (any options, memoization and debug included) the model parser of a meta-model gets the whitespace
+flag, the whitespace set and the memoization flag of *its own* configuration. -/
+theorem C22_parser_cfg_history (hist : List MMCfg) (c : MMCfg) :
+    parserCfgAfter hist c = { skipws := c.skipws, ws := c.ws.getD arpDefaultWs, memo := c.memoization } := rfl
+
+/-- … in particular a meta-model with the default configuration never gets a memoizing parser (the hypothesis
+`g.memo = false` of `C22_partial_ws` / `C22_model_unchanged`), whatever was created before it. -/
+theorem C22_default_cfg_no_memo (hist : List MMCfg) (c : MMCfg) (h : c.memoization = false) :
+    (parserCfgAfter hist c).memo = false := h
+
+/-- non-vacuity: main and the imported `base` both define Comment → main's; main without → the first import in
+the order written; an import of an import is not searched; the grammar-parser cache does change with the history -/
+example : commentOwner [⟨"main", ["Model", "Comment"], ["base"]⟩, ⟨"base", ["Point", "Comment"], []⟩]
+    ⟨"main", ["Model", "Comment"], ["base"]⟩ = some "main" := by decide
+example : commentOwner [⟨"main", ["Model"], ["b", "a"]⟩, ⟨"a", ["Comment"], []⟩, ⟨"b", ["X", "Comment"], []⟩]
+    ⟨"main", ["Model"], ["b", "a"]⟩ = some "b" := by decide
+example : commentOwner [⟨"main", ["Model"], ["a"]⟩, ⟨"a", ["X"], ["b"]⟩, ⟨"b", ["Comment"], []⟩]
+    ⟨"main", ["Model"], ["a"]⟩ = none := by decide
+example : buildAll {} [{ memoization := true }] = { plain := some true } ∧
+    parserCfgAfter [{ memoization := true }] {} = { skipws := true, ws := arpDefaultWs, memo := false } := by decide
 
 end Peg
